@@ -40,6 +40,7 @@ class Device:
         self.partial = {}
         self.dropped_inject = 0
         self.markers = []  # (wseq position, text) harness markers interleaved with writes
+        self.greeting = b""  # bytes delivered the moment the next connection is established
 
     # -- connection establishment -------------------------------------------
     def next_outcome(self, args):
@@ -53,6 +54,12 @@ class Device:
         conn.conn_id = len(self.conns)
         self.conns.append(conn)
         self.sim.ev("conn_open", conn.conn_id)
+        if self.greeting:
+            # bytes the peer sends the moment the connection exists (an ethernet gateway's boot messages): they are waiting
+            # when the controller's reader first looks.  (Delivered through a zero-delay event so that the asyncio transport,
+            # which is still being constructed here, has announced connection_made first.)
+            data, self.greeting = self.greeting, b""
+            self.sim.call_at(self.sim.now, lambda: conn.deliver(data))
         return conn
 
     def current(self):
